@@ -87,6 +87,8 @@ VM_DTOR = {"main": "src/virtual_machine.cpp", "keep": ["VmBase::~VmBase", "VmBas
            "pre_rewrites": [{"name": "Allocator::freeMemory -> allocator stand-in", "pattern": r"Allocator::freeMemory\(", "repl": "rxv_Allocator_freeMemory("}],
            "must_fire": {"recipe rewrite: Allocator::freeMemory -> allocator stand-in": 1}}
 
+LP_ALLOC = {"main": "src/allocator.cpp", "keep": ["LargePageAllocator::allocMemory", "LargePageAllocator::freeMemory"]}
+
 SS_SELECT = {'main': 'src/superscalar.cpp', 'keep': ['SuperscalarInstruction::selectDestination', 'SuperscalarInstruction::selectSource', 'selectRegister'], 'pre_rewrites': [{'name': 'std::vector<int> local -> fixed-capacity list', 'pattern': '\\b(static\\s+)?std::vector<int> (\\w+);', 'repl': '\\1rxv_ivec8 \\2 = { { 0 }, 0 };'}, {'name': 'vector push_back', 'pattern': '\\b(\\w+)\\.push_back\\(', 'repl': 'rxv_ivec8_push(&\\1, '}, {'name': 'vector clear', 'pattern': '\\b(\\w+)\\.clear\\(\\)', 'repl': 'rxv_ivec8_clear(&\\1)'}, {'name': 'vector size', 'pattern': '\\b(\\w+)\\.size\\(\\)', 'repl': 'rxv_ivec8_size(&\\1)'}, {'name': 'vector index', 'pattern': '\\bavailableRegisters\\[(\\w+)\\]', 'repl': 'rxv_ivec8_at(&availableRegisters, \\1)'}, {'name': 'instruction type query -> stand-in', 'pattern': 'info_->getType\\(\\)', 'repl': 'rxv_info_type(info_)'}, {'name': 'generator draw -> stand-in', 'pattern': 'gen\\.getUInt32\\(\\)', 'repl': 'rxv_gen_u32(&gen)'}], 'opaque_classes': ['MacroOp', 'SuperscalarInstructionInfo', 'DecoderBuffer', 'Blake2Generator'], 'drop_vars': ['SuperscalarInstruction::Null', 'SuperscalarInstruction_Null', '\\bslot_\\w+', 'buffer\\d', 'decodeBuffers?', '\\bNull\\b'], 'vector_as': {'int': 'rxv_ivec8'}}
 SS_SELECT["must_fire"] = {"recipe rewrite: std::vector<int> local -> fixed-capacity list": 2, "recipe rewrite: vector push_back": 2}
 
